@@ -114,6 +114,8 @@ type run struct {
 	pc     *memnet.PacketConn  // memPacket
 	udp    *net.UDPConn        // realUDP
 
+	sh *shared // what the two runs of one execution have in common
+
 	mu        sync.Mutex
 	cliConns  []net.Conn        // to be closed at teardown
 	addr2idx  map[string]string // realTCP: client local address -> client index
@@ -131,6 +133,63 @@ type run struct {
 	// effective Shutdown call returned ("" = nothing)
 	openAtReturn string
 	nonce        string
+	// sdcWatch (probes only): how long a Shutdown concurrent with a failing start may take once that
+	// start has returned; 0 = the watchdog
+	sdcWatch time.Duration
+}
+
+// shared: state of one execution that both runs of the Server value (and the server's callbacks,
+// which belong to the value, not to a run) use.
+type shared struct {
+	mu    sync.Mutex
+	addrs map[string]string // lnsTCP: client local address -> client index
+	socks []lnsSock         // ListenAndServe transports: what the k-th successful start left in the Server value
+}
+
+type lnsSock struct {
+	pc net.PacketConn
+	l  net.Listener
+}
+
+// lookup returns the client index registered for a local address, waiting up to 2 s for the
+// client to register it ("" = unknown).
+func (sh *shared) lookup(addr string) string {
+	for i := 0; i < 2000; i++ {
+		sh.mu.Lock()
+		idx, ok := sh.addrs[addr]
+		sh.mu.Unlock()
+		if ok {
+			return idx
+		}
+		time.Sleep(time.Millisecond)
+	}
+	return ""
+}
+
+// adopt makes the sockets that the k-th successful ListenAndServe created the sockets of this run.
+func (r *run) adopt(k int) {
+	if !r.s.lns() {
+		return
+	}
+	r.sh.mu.Lock()
+	defer r.sh.mu.Unlock()
+	if k < 1 || k > len(r.sh.socks) {
+		return
+	}
+	sk := r.sh.socks[k-1]
+	if r.s.Transport == "lnsUDP" {
+		r.udp, _ = sk.pc.(*net.UDPConn)
+	} else {
+		r.rawLis = sk.l
+	}
+}
+
+// serve is the start call of the scenario's transport.
+func (r *run) serve() error {
+	if r.s.lns() {
+		return r.srv.ListenAndServe()
+	}
+	return r.srv.ActivateAndServe()
 }
 
 func (r *run) violate(format string, a ...any) {
@@ -167,7 +226,7 @@ var runSeq atomic.Uint64
 
 func newNonce() string { return fmt.Sprintf("n%dx%d", os.Getpid(), runSeq.Add(1)) }
 
-func (r *run) real() bool { return r.s.Transport == "realUDP" || r.s.Transport == "realTCP" }
+func (r *run) real() bool { return r.s.loopback() }
 
 func (r *run) qname(j, q int) string { return fmt.Sprintf("q%d.c%d.%s.test.", q, j, r.nonce) }
 
@@ -202,6 +261,9 @@ func (r *run) spec(j, q int) Req {
 		sp := Req{Mode: "fast", Until: "release2"}
 		if m := r.s.restartReqs(); j-restartBase < len(m) && q == 1 {
 			sp.Mode = m[j-restartBase]
+			if h := r.s.Restart.Hijack; j-restartBase < len(h) {
+				sp.Hijack = h[j-restartBase]
+			}
 		}
 		return sp
 	}
@@ -230,12 +292,24 @@ func (r *run) handler(w dns.ResponseWriter, req *dns.Msg) {
 	reply := new(dns.Msg)
 	reply.SetReply(req)
 	reply.Answer = []dns.RR{&dns.TXT{Hdr: dns.RR_Header{Name: req.Question[0].Name, Rrtype: dns.TypeTXT, Class: dns.ClassINET, Ttl: 1}, Txt: []string{r.token(j, q)}}}
+	hijacked := false
+	hijack := func() {
+		w.Hijack() // from here on the connection is the handler's: it closes it itself, below
+		hijacked = true
+		r.log.Pointf("handler.hijack(%d,%d)", j, q)
+	}
+	if sp.Hijack == "before" {
+		hijack()
+	}
 	write := func() {
 		if err := w.WriteMsg(reply); err != nil {
 			r.log.Addf("handler.writeerr(%d,%d)", j, q)
 			r.log.Addf("  (write error of handler %d,%d: %v)", j, q, err)
 		} else {
 			r.log.Pointf("handler.written(%d,%d)", j, q)
+		}
+		if sp.Hijack == "after" && !hijacked {
+			hijack()
 		}
 	}
 	wait := func() {
@@ -257,6 +331,10 @@ func (r *run) handler(w dns.ResponseWriter, req *dns.Msg) {
 	default:
 		write()
 	}
+	if hijacked {
+		w.Close()
+		r.log.Addf("handler.closed(%d,%d)", j, q)
+	}
 	r.log.Pointf("handler.exit(%d,%d)", j, q)
 }
 
@@ -266,6 +344,24 @@ type spyReader struct {
 	dns.Reader
 	r *run
 	q int
+	j string // stream: the index of this reader's connection, once known
+}
+
+// idx returns the index of the connection (one reader per connection). A connection that the
+// library accepted on its own listener is recognised by the address its client registered.
+func (s *spyReader) idx(conn net.Conn) string {
+	if s.j == "" {
+		s.j = connIdx(conn)
+		if s.j == "?" && s.r.s.lns() {
+			if c, ok := conn.(*tls.Conn); ok {
+				conn = c.NetConn()
+			}
+			if j := s.r.sh.lookup(conn.RemoteAddr().String()); j != "" {
+				s.j = j
+			}
+		}
+	}
+	return s.j
 }
 
 func connIdx(c net.Conn) string {
@@ -289,7 +385,7 @@ func retTag(err error) string {
 
 func (s *spyReader) ReadTCP(conn net.Conn, timeout time.Duration) ([]byte, error) {
 	s.q++
-	j := connIdx(conn)
+	j := s.idx(conn)
 	s.r.log.Pointf("reader.enter(%s,%d)", j, s.q)
 	m, err := s.Reader.ReadTCP(conn, timeout)
 	s.r.log.Pointf("reader.return(%s,%d,%s)", j, s.q, retTag(err))
@@ -336,11 +432,18 @@ func (r *run) newServer() *dns.Server {
 			r.log.Pointf("accept.policy(%d,%d)", dh.Id/16, dh.Id%16)
 			return dns.DefaultMsgAcceptFunc(dh)
 		},
-		Handler:           dns.HandlerFunc(r.handler),
-		NotifyStartedFunc: func() { r.log.Point("srv.started") },
-		DecorateReader:    func(rd dns.Reader) dns.Reader { return &spyReader{Reader: rd, r: r} },
-		DecorateWriter:    func(w dns.Writer) dns.Writer { return spyWriter{w, r} },
-		MaxTCPQueries:     r.s.MaxTCP,
+		Handler: dns.HandlerFunc(r.handler),
+		NotifyStartedFunc: func() {
+			if r.s.lns() { // on the goroutine that has just stored them (ListenAndServe)
+				r.sh.mu.Lock()
+				r.sh.socks = append(r.sh.socks, lnsSock{pc: r.srv.PacketConn, l: r.srv.Listener})
+				r.sh.mu.Unlock()
+			}
+			r.log.Point("srv.started")
+		},
+		DecorateReader: func(rd dns.Reader) dns.Reader { return &spyReader{Reader: rd, r: r} },
+		DecorateWriter: func(w dns.Writer) dns.Writer { return spyWriter{w, r} },
+		MaxTCPQueries:  r.s.MaxTCP,
 	}
 	return srv
 }
@@ -348,6 +451,16 @@ func (r *run) newServer() *dns.Server {
 // attach creates fresh transport objects for the current phase and hooks them into the server.
 func (r *run) attach() error {
 	r.lis, r.spy, r.rawLis, r.pnet, r.pc, r.udp = nil, nil, nil, nil, nil, nil
+	if r.s.lns() {
+		// the library makes the socket and stores it in the Server value (adopt); the field of the
+		// other kind keeps whatever an earlier run left there
+		r.srv.Addr = "127.0.0.1:0"
+		r.srv.Net = map[string]string{"lnsUDP": "udp", "lnsTCP": "tcp"}[r.s.Transport]
+		if r.srv.Net == "" {
+			return fmt.Errorf("unknown transport %q", r.s.Transport)
+		}
+		return nil
+	}
 	r.srv.Listener, r.srv.PacketConn = nil, nil
 	switch r.s.Transport {
 	case "memTCP":
@@ -425,11 +538,26 @@ func (r *run) dial(j int) (net.Conn, error) {
 		r.mu.Lock()
 		r.addr2idx[c.LocalAddr().String()] = fmt.Sprint(j)
 		r.mu.Unlock()
-	case "realUDP":
+	case "realUDP", "lnsUDP":
+		if r.udp == nil {
+			return nil, errors.New("no socket")
+		}
 		c, err = net.Dial("udp", r.udp.LocalAddr().String())
 		if err != nil {
 			return nil, err
 		}
+	case "lnsTCP":
+		if r.rawLis == nil {
+			return nil, errors.New("no listener")
+		}
+		d := net.Dialer{Timeout: 2 * time.Second}
+		c, err = d.Dial("tcp", r.rawLis.Addr().String())
+		if err != nil {
+			return nil, err
+		}
+		r.sh.mu.Lock()
+		r.sh.addrs[c.LocalAddr().String()] = fmt.Sprint(j)
+		r.sh.mu.Unlock()
 	}
 	r.mu.Lock()
 	torn := r.torn
@@ -467,13 +595,13 @@ func (r *run) client(j int, c Client) {
 		// client's own later datagrams (sent after the server had gone) on the next receive, ahead
 		// of replies that are already queued. That is the client's kernel, not the server: the
 		// error is consumed by reporting it, so read again.
-		for i := 0; err != nil && r.s.Transport == "realUDP" && strings.Contains(err.Error(), "connection refused") && i < 8; i++ {
+		for i := 0; err != nil && r.s.kernelUDP() && strings.Contains(err.Error(), "connection refused") && i < 8; i++ {
 			rep, err = co.ReadMsg()
 		}
 		// replies of another process's server (see newNonce): skip datagrams, give up on a stream
 		for i := 0; err == nil && r.real() && !strings.Contains(replyToken(rep), r.nonce) && i < 8; i++ {
 			r.log.Add("alien.reply")
-			if r.s.Transport == "realTCP" {
+			if r.s.kernelTCP() {
 				err = errors.New("connected to a foreign server")
 				break
 			}
@@ -661,6 +789,8 @@ func (r *run) closeAll() {
 		for _, c := range r.spy.Accepted() {
 			c.Close()
 		}
+	} else if r.rawLis != nil {
+		r.rawLis.Close()
 	}
 	if r.pc != nil {
 		r.pc.Close()
@@ -672,7 +802,16 @@ func (r *run) closeAll() {
 
 // runScenario executes one scenario and returns its evidence classes and the oracle's verdict.
 func runScenario(s Scenario) ([]string, error) {
-	r := &run{s: s, nonce: newNonce(), log: memnet.NewLog(), addr2idx: map[string]string{}, results: map[string]error{}, resultSet: map[string]bool{}, phase: 1}
+	r := &run{s: s, nonce: newNonce(), log: memnet.NewLog(), addr2idx: map[string]string{}, results: map[string]error{}, resultSet: map[string]bool{}, phase: 1, sh: &shared{addrs: map[string]string{}}}
+	r.log.SetPlan(s.Waits)
+	err := r.execute()
+	return r.classes(), err
+}
+
+// runScenarioOpt is runScenario with a bound of its own for a Shutdown that is concurrent with a
+// failing start (probes: a known hang must not cost the full watchdog in every process).
+func runScenarioOpt(s Scenario, sdcWatch time.Duration) ([]string, error) {
+	r := &run{s: s, nonce: newNonce(), log: memnet.NewLog(), addr2idx: map[string]string{}, results: map[string]error{}, resultSet: map[string]bool{}, phase: 1, sh: &shared{addrs: map[string]string{}}, sdcWatch: sdcWatch}
 	r.log.SetPlan(s.Waits)
 	err := r.execute()
 	return r.classes(), err
@@ -721,7 +860,7 @@ func (r *run) execute() (err error) {
 
 	// --- misuse: a start that fails, then Shutdown, then (below) the real start on the same value
 	if m, ok := r.hasMisuse("failedStart"); ok {
-		if e := r.failedStart(m.At); e != nil {
+		if e := r.failedStart(m.At, m.Sd); e != nil {
 			return e
 		}
 	}
@@ -762,7 +901,7 @@ func (r *run) execute() (err error) {
 				r.log.Add("serve.panic(" + clip(fmt.Sprint(p), 80) + ")")
 			}
 		}()
-		e := r.srv.ActivateAndServe()
+		e := r.serve()
 		r.log.Point("serve.return(" + errTag(e) + ")")
 	}()
 	if r.log.WaitAny(watchdog(), "srv.started", "serve.return(*)") < 0 {
@@ -771,6 +910,7 @@ func (r *run) execute() (err error) {
 	if !r.log.Has("srv.started") {
 		return r.fail("I4/I5: ActivateAndServe on a fresh transport returned instead of serving: %s", r.log.Names()[r.log.Index("serve.return(*)")])
 	}
+	r.adopt(1)
 
 	// --- clients
 	clientsDone := make(chan struct{})
@@ -810,7 +950,7 @@ func (r *run) execute() (err error) {
 			// the controller does not call Shutdown while this is in flight (r.mu is held)
 			var e error
 			r.log.Add("misuse.secondStart.call")
-			ok := within(watchdog(), func() { e = r.srv.ActivateAndServe() })
+			ok := within(watchdog(), func() { e = r.serve() })
 			if ok {
 				r.results["secondStart"] = e
 				r.resultSet["secondStart"] = true
@@ -929,9 +1069,17 @@ func (r *run) execute() (err error) {
 		e := r.sdErr
 		r.mu.Unlock()
 		if e != nil && !isNotStarted(e) {
-			return r.secondRun(true, serveDone, clientsDone)
+			return r.secondRun("drain", serveDone, clientsDone, sdDone)
 		}
 		// Shutdown completed before it looked at its context: the restart follows after run 1 as usual
+	}
+	// --- misuse: restart while Shutdown is still waiting for the handlers of run 1 (ListenAndServe)
+	if s.shutting() {
+		select {
+		case <-sdDone: // Shutdown 1 had nothing to wait for: the restart follows after run 1 as usual
+		default:
+			return r.secondRun("shutting", serveDone, clientsDone, sdDone)
+		}
 	}
 	r.release()
 	wd := time.After(watchdog())
@@ -973,7 +1121,7 @@ func (r *run) execute() (err error) {
 
 	// --- misuse: restart the same Server value after run 1 is over
 	if _, ok := r.hasMisuse("restartAfterShutdown"); ok {
-		return r.secondRun(false, nil, nil)
+		return r.secondRun("complete", nil, nil, nil)
 	}
 	return nil
 }
@@ -1106,6 +1254,9 @@ func (r *run) invariants() error {
 		if ctxGaveUp {
 			continue // I1 waived; nothing asserted about handlers around a Shutdown that gave up
 		}
+		if j >= restartBase {
+			continue // a handler of the second run (restart while Shutdown 1 was still waiting): judged there
+		}
 		if i > effRet {
 			return r.fail("I3: handler (%d,%d) was started after Shutdown had returned", j, q)
 		}
@@ -1186,11 +1337,50 @@ func (r *run) injectFault(kind string) {
 // failedStart makes one start attempt that must fail, checks that it returns an error instead of
 // blocking, that a following Shutdown returns at once (the "server not started" error when the
 // server never began to serve), and leaves the Server value ready for the real start.
-func (r *run) failedStart(kind string) error {
+//
+// sd = decorate | notify: a Shutdown runs concurrently with that start - it is called from inside
+// the named callback of the library (see Misuse.Sd). Then neither call may block; when that
+// Shutdown was the one that stopped the server (it returned nil) the start may return nil as well.
+func (r *run) failedStart(kind, sd string) error {
 	srv := r.srv
-	savedL, savedP, savedNotify := srv.Listener, srv.PacketConn, srv.NotifyStartedFunc
+	savedL, savedP, savedNotify, savedNet, savedAddr := srv.Listener, srv.PacketConn, srv.NotifyStartedFunc, srv.Net, srv.Addr
 	srv.Listener, srv.PacketConn = nil, nil
-	srv.NotifyStartedFunc = func() { r.log.Add("failedstart.serving") }
+	// the concurrent Shutdown: launched once, from the callback named by sd
+	var (
+		sdcOnce   sync.Once
+		sdcDone   = make(chan struct{})
+		sdcErr    error
+		sdcCalled atomic.Bool
+	)
+	sdcCtx, sdcCancel := context.WithCancel(context.Background()) // cancelled only to free a Shutdown that hangs
+	defer sdcCancel()
+	var flog *memnet.Log // in-memory sockets of the failing start log their events (names fpc.*, flis.*) only when sd is set
+	if sd != "" {
+		flog = r.log
+	}
+	hook := func(at string) {
+		if sd != at {
+			return
+		}
+		sdcOnce.Do(func() {
+			sdcCalled.Store(true)
+			r.log.Add("misuse.failedStart.shutdown-inside(" + at + ").call")
+			go func() {
+				defer close(sdcDone)
+				sdcErr = srv.ShutdownContext(sdcCtx)
+				r.log.Add("misuse.failedStart.shutdown-inside.return(" + errTag(sdcErr) + ")")
+			}()
+			// the callback returns when that Shutdown has done its locked part (it closes the listener /
+			// sets the past deadline under the lock), when it has returned, or a few milliseconds later
+			r.log.WaitAny(5*time.Millisecond, "fpc.setReadDeadline(past)", "flis.close", "misuse.failedStart.shutdown-inside.return(*)")
+		})
+	}
+	srv.NotifyStartedFunc = func() { r.log.Add("failedstart.serving"); hook("notify") }
+	savedDeco := srv.DecorateReader
+	defer func() { srv.DecorateReader = savedDeco }()
+	if sd == "decorate" {
+		srv.DecorateReader = func(inner dns.Reader) dns.Reader { hook("decorate"); return savedDeco(inner) }
+	}
 	var holder interface{ Close() error }
 	var injected *memnet.NetError
 	listen := false
@@ -1203,11 +1393,11 @@ func (r *run) failedStart(kind string) error {
 		pc.Close()
 		srv.PacketConn = pc
 	case "closedPacketConn": // a generic (non-UDPConn) PacketConn that is already closed
-		pc := memnet.NewPacketConn(nil, "", memnet.UDPAddr(53))
+		pc := memnet.NewPacketConn(flog, fname(flog, "fpc"), memnet.UDPAddr(53))
 		pc.Close()
 		srv.PacketConn = pc
 	case "closedMemListener":
-		l := memnet.NewListener(nil, "")
+		l := memnet.NewListener(flog, fname(flog, "flis"))
 		l.Close()
 		srv.Listener = l
 	case "closedListener":
@@ -1218,22 +1408,20 @@ func (r *run) failedStart(kind string) error {
 		l.Close()
 		srv.Listener = l
 	case "permanentAcceptErr", "timeoutNotTemporaryAccept": // a healthy listener whose first Accept fails for good
-		l := memnet.NewListener(nil, "")
+		l := memnet.NewListener(flog, fname(flog, "flis"))
 		injected = faultError(strings.TrimSuffix(strings.TrimSuffix(kind, "Accept"), "AcceptErr"))
 		l.InjectAcceptError(injected)
 		srv.Listener = l
 	case "permanentReadErr", "timeoutNotTemporaryRead":
-		pc := memnet.NewPacketConn(nil, "", memnet.UDPAddr(53))
+		pc := memnet.NewPacketConn(flog, fname(flog, "fpc"), memnet.UDPAddr(53))
 		injected = faultError(strings.TrimSuffix(strings.TrimSuffix(kind, "Read"), "ReadErr"))
 		pc.InjectReadError(injected)
 		srv.PacketConn = pc
 	case "readerWithoutPacketConn": // a generic PacketConn, but the decorated Reader only knows ReadUDP/ReadTCP
-		pc := memnet.NewPacketConn(nil, "", memnet.UDPAddr(53))
+		pc := memnet.NewPacketConn(flog, fname(flog, "fpc"), memnet.UDPAddr(53))
 		holder = pc
 		srv.PacketConn = pc
-		savedDeco := srv.DecorateReader
-		srv.DecorateReader = func(inner dns.Reader) dns.Reader { return plainReader{inner} }
-		defer func() { srv.DecorateReader = savedDeco }()
+		srv.DecorateReader = func(inner dns.Reader) dns.Reader { hook("decorate"); return plainReader{inner} }
 	case "nilListeners":
 	case "badAddrTCP":
 		listen, srv.Net, srv.Addr = true, "tcp", "127.0.0.1:99999"
@@ -1276,10 +1464,44 @@ func (r *run) failedStart(kind string) error {
 		return r.hangOpt("a start that cannot succeed ("+kind+")", false)
 	}
 	r.log.Add("misuse.failedStart.return(" + errTag(startErr) + ")")
-	if startErr == nil {
+	stoppedInside := false // the concurrent Shutdown found a started server and stopped it
+	if sdcCalled.Load() {
+		// the start has returned: whatever that Shutdown was waiting for is over
+		wd := watchdog()
+		if r.sdcWatch > 0 {
+			wd = r.sdcWatch
+		}
+		select {
+		case <-sdcDone:
+		case <-time.After(wd):
+			stuck := dnsGoroutines()
+			evs := r.log.String()
+			sdcCancel() // frees it: ShutdownContext gives up on its context
+			select {
+			case <-sdcDone:
+			case <-time.After(3 * time.Second):
+				wedged.Store(true)
+			}
+			if r.sdcWatch == 0 {
+				hangProven.Store(true)
+			}
+			srv.Net, srv.Addr = savedNet, savedAddr
+			srv.Listener, srv.PacketConn, srv.NotifyStartedFunc = savedL, savedP, savedNotify
+			return fmt.Errorf("I7: a Shutdown that was called from inside %s while a start that cannot succeed (%s) was under way did not return within %v after that start had returned (%v); %d goroutine(s) inside miekg/dns:\n%s\nevent log:\n%s",
+				map[string]string{"decorate": "DecorateReader", "notify": "NotifyStartedFunc"}[sd], kind, wd, startErr, len(stuck), clip(strings.Join(stuck, "\n\n"), 3000), clip(evs, 6000))
+		}
+		switch {
+		case sdcErr == nil:
+			stoppedInside = true
+		case isNotStarted(sdcErr):
+		default:
+			return r.fail("I4/I5: a Shutdown concurrent with a start that cannot succeed (%s) returned %v, want nil or the 'server not started' error", kind, sdcErr)
+		}
+	}
+	if startErr == nil && !stoppedInside {
 		return r.fail("I5: start with %s returned nil", kind)
 	}
-	if injected != nil && startErr != error(injected) {
+	if injected != nil && startErr != error(injected) && !stoppedInside {
 		return r.fail("I4: the serve call hit the non-temporary error %q at its first accept/read but returned %v", injected.Msg, startErr)
 	}
 	served := r.log.Has("failedstart.serving")
@@ -1292,9 +1514,17 @@ func (r *run) failedStart(kind string) error {
 	if !isNotStarted(sdErr) && !(served && sdErr == nil) {
 		return r.fail("I5: Shutdown after a failed start (%s: %v) returned %v, want the 'server not started' error", kind, startErr, sdErr)
 	}
-	srv.Net, srv.Addr = "", ""
+	srv.Net, srv.Addr = savedNet, savedAddr
 	srv.Listener, srv.PacketConn, srv.NotifyStartedFunc = savedL, savedP, savedNotify
 	return nil
+}
+
+// fname names an in-memory socket of a failing start only when its events are wanted.
+func fname(l *memnet.Log, name string) string {
+	if l == nil {
+		return ""
+	}
+	return name
 }
 
 // plainReader hides the optional ReadPacketConn method of the server's default reader.
@@ -1310,6 +1540,10 @@ func (r *run) openTransport() string {
 	case r.spy != nil:
 		if !r.spy.Closed() {
 			return "the TCP listener"
+		}
+	case r.rawLis != nil: // made by ListenAndServe
+		if tl, ok := r.rawLis.(*net.TCPListener); ok && tl.SetDeadline(time.Time{}) == nil {
+			return "the TCP listener that ListenAndServe opened"
 		}
 	case r.pc != nil:
 		if !r.pc.Closed() {
@@ -1354,6 +1588,11 @@ func (r *run) closedAndLeakFree() error {
 				return r.fail("I6: accepted connection %s not closed after shutdown", c.Name())
 			}
 		}
+	case r.rawLis != nil:
+		if tl, ok := r.rawLis.(*net.TCPListener); ok && tl.SetDeadline(time.Time{}) == nil {
+			tl.Close()
+			return r.fail("I6: the TCP listener that ListenAndServe opened is not closed after shutdown")
+		}
 	case r.pc != nil:
 		if !r.pc.Closed() {
 			return r.fail("I6: PacketConn not closed after shutdown")
@@ -1393,25 +1632,45 @@ func (r *run) closedAndLeakFree() error {
 // held. They are released at Restart.Release1. Nothing is asserted about THEM (the statement waives
 // handlers that outlive an expired context), but run 1's serve call must still return nil, and
 // whatever run 1 does while it drains must not break any promise made to run 2.
-func (r *run) secondRun(drain bool, serve1Done, clients1Done <-chan struct{}) error {
+//
+// mode shutting (ListenAndServe transports): the Shutdown call of run 1 has not returned - it is
+// waiting for a held handler of run 1 - when the second start is made. At Restart.Release1 it is
+// made to return (handlers of run 1 released, or its context cancelled) and must then return; what
+// it does on its way out must not touch run 2. With a background context run 1 is judged in full
+// (I1, I2, I4), with a context that was cancelled as in mode drain.
+func (r *run) secondRun(mode string, serve1Done, clients1Done, sd1Done <-chan struct{}) error {
 	rs := r.s.Restart
 	reqs := r.s.restartReqs()
-	if drain {
-		r.log.Add("restart(drain)")
-	} else {
-		r.log.Add("restart(complete)")
-	}
+	drain := mode != "complete" // run 1 is not over yet
+	ctxMode := mode == "shutting" && r.s.Ctx != "background"
+	r.log.Add("restart(" + mode + ")")
 	mark := r.log.Len()
-	r2 := &run{s: r.s, nonce: r.nonce, log: r.log, srv: r.srv, addr2idx: map[string]string{}, phase: 2, parent: r}
+	s2 := r.s
+	s2.Transport = r.s.transport2()
+	r2 := &run{s: s2, nonce: r.nonce, log: r.log, srv: r.srv, sh: r.sh, addr2idx: map[string]string{}, phase: 2, parent: r}
 	r.child = r2
 	if err := r2.attach(); err != nil {
 		fmt.Fprintln(os.Stderr, "c13: INFRASTRUCTURE:", err)
 		os.Exit(2)
 	}
-	release1 := func() {
-		if drain {
+	released1 := false
+	release1 := func() error {
+		if !drain || released1 {
+			return nil
+		}
+		released1 = true
+		r.log.Add("release1") // shutting with a context: the context of Shutdown 1 is cancelled at this event
+		if !ctxMode {
 			r.release()
 		}
+		if mode == "shutting" {
+			select {
+			case <-sd1Done:
+			case <-time.After(watchdog()):
+				return r.hang("the Shutdown call of run 1 (its handlers are released or its context is cancelled; the same Server value has been started again meanwhile)")
+			}
+		}
+		return nil
 	}
 	serve2Done := make(chan struct{})
 	go func() {
@@ -1421,7 +1680,16 @@ func (r *run) secondRun(drain bool, serve1Done, clients1Done <-chan struct{}) er
 				r.log.Add("serve2.panic(" + clip(fmt.Sprint(p), 80) + ")")
 			}
 		}()
-		e := r.srv.ActivateAndServe()
+		e := r2.serve()
+		if mode == "shutting" && isAlreadyStarted(e) {
+			// Shutdown 1 has been called but has not got to the started flag yet: the refusal is the
+			// right answer (I5); the start is repeated until Shutdown 1 has done its locked part
+			r.log.Add("serve2.refused-while-started")
+			for deadline := time.Now().Add(watchdog()); isAlreadyStarted(e) && time.Now().Before(deadline); {
+				time.Sleep(100 * time.Microsecond)
+				e = r2.serve()
+			}
+		}
 		r.log.Point("serve2.return(" + errTag(e) + ")")
 	}()
 	started2 := make(chan bool, 1)
@@ -1433,14 +1701,18 @@ func (r *run) secondRun(drain bool, serve1Done, clients1Done <-chan struct{}) er
 		}
 	case <-serve2Done:
 		if !r.log.WaitCount("srv.started", 2, 0) {
-			release1()
+			r.log.Add("release1")
+			r.release()
 			r.rescue()
-			return r.fail("restart: ActivateAndServe on the same Server value with a fresh transport did not serve: %s", r.lastOf("serve2.*"))
+			return r.fail("restart(%s): the start on the same Server value with a fresh transport did not serve: %s", mode, r.lastOf("serve2.*"))
 		}
 	}
+	r2.adopt(2)
 	if rs.Release1 == "started2" {
-		release1()
-		r.paceRun1(drain)
+		if e := release1(); e != nil {
+			return e
+		}
+		r.paceRun1(drain && !ctxMode)
 	}
 
 	// --- clients of run 2
@@ -1473,8 +1745,10 @@ func (r *run) secondRun(drain bool, serve1Done, clients1Done <-chan struct{}) er
 		}
 	}
 	if rs.Release1 == "entered2" {
-		release1()
-		r.paceRun1(drain)
+		if e := release1(); e != nil {
+			return e
+		}
+		r.paceRun1(drain && !ctxMode)
 	}
 
 	// --- Shutdown of run 2
@@ -1506,7 +1780,9 @@ func (r *run) secondRun(drain bool, serve1Done, clients1Done <-chan struct{}) er
 	}
 	hold()
 	if rs.Release1 == "held2" {
-		release1() // run 1 finishes draining while Shutdown 2 waits for run 2
+		if e := release1(); e != nil { // run 1 finishes draining while Shutdown 2 waits for run 2
+			return e
+		}
 		hold()
 	}
 	r.log.Add("release2")
@@ -1524,9 +1800,18 @@ func (r *run) secondRun(drain bool, serve1Done, clients1Done <-chan struct{}) er
 
 	// --- run 1 finishes (drain)
 	if drain {
-		release1()
+		if e := release1(); e != nil {
+			return e
+		}
+		r.release() // shutting with a context: only now are the handlers of run 1 let go
 		if !r.waitHandlersExited(watchdog()) {
 			return r.hang("a released handler")
+		}
+		if mode == "shutting" && !ctxMode {
+			// Shutdown 1 waited for its handlers and returned nil: their replies are owed (I2)
+			if e := r.awaitReplies(); e != nil {
+				return e
+			}
 		}
 		// both Shutdown calls have returned and every handler too: a connection of run 1 that was
 		// inside a handler when the server was started again must now be let go by the server itself
@@ -1724,6 +2009,29 @@ func (r *run) classes() []string {
 		cl = append(cl, "misuse="+m.Op)
 		if m.Op == "failedStart" {
 			cl = append(cl, "failedStart="+m.At)
+			if m.Sd != "" {
+				cl = append(cl, "failedStart-shutdown-inside="+m.Sd)
+			}
+		}
+	}
+	hij := map[string]bool{}
+	for _, c := range s.Clients {
+		for _, q := range c.Reqs {
+			if q.Hijack != "" {
+				hij[q.Hijack] = true
+			}
+		}
+	}
+	if s.hasRestart() {
+		for _, h := range s.Restart.Hijack {
+			if h != "" {
+				hij[h] = true
+			}
+		}
+	}
+	for _, h := range []string{"before", "after"} {
+		if hij[h] {
+			cl = append(cl, "handler-hijacks="+h)
 		}
 	}
 	if s.stream() {
@@ -1753,6 +2061,15 @@ func (r *run) classes() []string {
 		if n == "misuse.failedStart.shutdown(nil)" {
 			cl = append(cl, "failedStart-shutdown-nil")
 		}
+		if n == "misuse.failedStart.shutdown-inside.return(nil)" {
+			cl = append(cl, "failedStart-stopped-by-shutdown-inside")
+		}
+		if n == "misuse.failedStart.shutdown-inside.return(err:dns: server not started)" {
+			cl = append(cl, "failedStart-shutdown-inside-not-started")
+		}
+		if n == "serve2.refused-while-started" {
+			cl = append(cl, "restart(shutting):refused-until-shutdown-took-the-flag")
+		}
 	}
 	call := -1
 	for i, n := range names {
@@ -1766,10 +2083,13 @@ func (r *run) classes() []string {
 	}
 	running := map[string]bool{}
 	unread := map[string]bool{}
+	hijacker := map[string]bool{}
 	for _, n := range names[:call] {
 		switch {
 		case strings.HasPrefix(n, "handler.enter("):
 			running[strings.TrimPrefix(n, "handler.enter")] = true
+		case strings.HasPrefix(n, "handler.hijack("):
+			hijacker[strings.TrimPrefix(n, "handler.hijack")] = true
 		case strings.HasPrefix(n, "handler.exit("):
 			delete(running, strings.TrimPrefix(n, "handler.exit"))
 		case strings.HasPrefix(n, "lis.accept.return(") && n != "lis.accept.return(closed)" && n != "lis.accept.return(err)":
@@ -1781,6 +2101,12 @@ func (r *run) classes() []string {
 	}
 	if len(running) > 0 {
 		cl = append(cl, "sd-while-handler-running")
+		for k := range running {
+			if hijacker[k] {
+				cl = append(cl, "sd-while-hijacking-handler-running")
+				break
+			}
+		}
 	}
 	if len(unread) > 0 {
 		cl = append(cl, "sd-while-conn-unread")
@@ -1868,8 +2194,21 @@ func (r *run) classes() []string {
 		if call2 >= 0 && len(run2) > 0 {
 			cl = append(cl, "restart:sd2-while-handler-running")
 		}
-		if names[at2] == "restart(drain)" {
+		if names[at2] != "restart(complete)" {
 			cl = append(cl, "restart-release1="+s.Restart.Release1)
+		}
+		if names[at2] == "restart(shutting)" {
+			cl = append(cl, "restart(shutting):ctx="+s.Ctx)
+		}
+		if s.lns() {
+			cl = append(cl, "restart:"+s.Transport+"->"+s.transport2())
+		}
+		for i, n := range names[:upto] {
+			var j, q int
+			if i > at2 && scan(n, "handler.hijack(%d,%d)", &j, &q) && run2[fmt.Sprint(j, q)] {
+				cl = append(cl, "restart:sd2-while-hijacking-handler-running")
+				break
+			}
 		}
 		if call2 >= 0 {
 			cl = append(cl, "restart-at="+s.Restart.At)
